@@ -62,6 +62,8 @@ def make_spec(rng, idx=0):
         spec["basetypes"].append({"name": name, "code": code, "folder": name.upper() + "S", "levels": levels, "groups": groups})
     spec["aliases"] = {"cache": ["abc", "vdb", "fur", "json"], "movie": ["mp4", "mov", "avi"]}
     spec["third_path_config"] = rng.random() < 0.7
+    # documented usage: intermediate types extrapolated from a LEAF type (its name suffix is not its last key)
+    spec["extrapolate_from_leaf"] = rng.random() < 0.5
     return spec
 
 
@@ -94,8 +96,11 @@ def write_package(spec, directory):
         full = head + "/" + mid + "/{%s}/{%s}" % (V, S)
         for g in bt["groups"]:
             sid_templates.append(("%s__%s_file" % (b, g), full + "/{%s:%s}" % (E, g)))
-        sid_templates.append(("%s__%s" % (b, S), full))
-        to_extrapolate.append("%s__%s" % (b, S))
+        if spec.get("extrapolate_from_leaf"):
+            to_extrapolate.append("%s__%s_file" % (b, bt["groups"][-1]))
+        else:
+            sid_templates.append(("%s__%s" % (b, S), full))
+            to_extrapolate.append("%s__%s" % (b, S))
         sid_templates.append((b, head))
         key_types[b] = keys + [E]
         leaf_keys[b] = E
